@@ -72,6 +72,13 @@ def check_output(A, name, G, ic, tau, gamma, grid, full, out, cls, tag):
         if not np.all(np.isfinite(c)):
             A.add(V("C06", name, cls, "nonfinite", "%s: %s contains nan/inf: %r" % (tag, nm, c.tolist()[:6])))
             return
+    # singular regime of the closures: the susceptible pool is (numerically) exhausted during the run, so
+    # terms like [SI]([SS]-[SI])/[S] are evaluated at S ~ 0; classified separately so that a recorded
+    # finding there cannot mask a monotonicity/range failure in the regular regime
+    if cls.startswith("degenerate:") is False and float(np.min(S)) < 1e-3 * max(1.0, N):
+        cls_dyn = "degenerate:S_exhausted"
+    else:
+        cls_dyn = cls
     tot = sum(c for _, c in cols)
     dev = float(np.max(np.abs(tot - N)))
     A.max["conservation_dev_over_N"] = max(A.max.get("conservation_dev_over_N", 0.0), dev / N)
@@ -79,12 +86,12 @@ def check_output(A, name, G, ic, tau, gamma, grid, full, out, cls, tag):
         A.add(V("C06", name, cls, "conservation", "%s: S+I(+R) deviates from N=%d by %.3g" % (tag, N, dev), (), dev, 0.0))
     for nm, c in cols:
         if np.min(c) < -100 * tolN or np.max(c) > N + 100 * tolN:
-            A.add(V("C06", name, cls, "range", "%s: %s leaves [0,N]: min %.6g max %.6g" % (tag, nm, np.min(c), np.max(c))))
+            A.add(V("C06", name, cls_dyn, "range", "%s: %s leaves [0,N]: min %.6g max %.6g" % (tag, nm, np.min(c), np.max(c))))
     if inf["model"] == "SIR":
         if np.max(np.diff(S)) > 1e-5 * N if len(S) > 1 else False:
-            A.add(V("C06", name, cls, "S_increases", "%s: S increases by %.3g" % (tag, np.max(np.diff(S)))))
+            A.add(V("C06", name, cls_dyn, "S_increases", "%s: S increases by %.3g" % (tag, np.max(np.diff(S)))))
         if np.min(np.diff(R)) < -1e-5 * N if len(R) > 1 else False:
-            A.add(V("C06", name, cls, "R_decreases", "%s: R decreases by %.3g" % (tag, -np.min(np.diff(R)))))
+            A.add(V("C06", name, cls_dyn, "R_decreases", "%s: R decreases by %.3g" % (tag, -np.min(np.diff(R)))))
     # initial state
     E = cat.expected_initial(G, ic, inf["model"])
     tol0 = 1e-9 * max(1.0, N)
